@@ -143,6 +143,7 @@ type Engine struct {
 	symseen   map[string]int
 	tagcount  map[string]int
 	realDo    int
+	syncMaps  map[*Cell]*MapObj
 	unwind    int
 	depth     int
 	lastPanic *goPanic
@@ -430,6 +431,7 @@ func (e *Engine) advance() bool {
 // ---------- running ----------
 
 func (e *Engine) resetPath() {
+	e.syncMaps = nil
 	e.pc = e.pc[:0]
 	e.tpos = 0
 	e.globals = map[*ssa.Global]*Cell{}
